@@ -308,6 +308,21 @@ fn generate(cli: &Cli) -> Vec<Case> {
                         out.push(Case { sc: sc_v, state: state.clone(), class: "random-bytes", detail: len.to_string(), must_err: false, refuse_after: None, max_frame });
                     }
                 }
+                // 6b. legitimate load: one frame of (almost) the maximum size, and a flood of small
+                // valid frames, both during routing — memory must stay in proportion to max_frame
+                if shape.intent != Intent::Status {
+                    if let Some(pos) = positions.iter().find(|p| p.state == "encrypted-config-plugin-message") {
+                        let big = (max_frame as usize).saturating_sub(16).min(300_000);
+                        let mut raw = b"\x0fminecraft:brand".to_vec();
+                        raw.resize(big.max(20), b'x');
+                        let sc_v = apply(&sc, pos, vec![Out::Pkt(Pkt::ConfPluginMessageIn { raw })], false);
+                        out.push(Case { sc: sc_v, state: format!("{}/{}", shape.name, pos.state), class: "maximum-size-frame", detail: big.to_string(), must_err: false, refuse_after: None, max_frame });
+                        let small = Pkt::ConfPluginMessageIn { raw: b"\x0fminecraft:brandvanilla".to_vec() }.frame();
+                        let flood: Vec<u8> = small.iter().cycle().take(small.len() * 4000).copied().collect();
+                        let sc_v = apply(&sc, pos, vec![Out::Frame(flood)], false);
+                        out.push(Case { sc: sc_v, state: format!("{}/{}", shape.name, pos.state), class: "flood-of-small-frames", detail: "4000".into(), must_err: false, refuse_after: None, max_frame });
+                    }
+                }
                 // 7. RSA fields of every length class and secrets of the wrong size
                 if shape.intent != Intent::Status {
                     for (a, b) in [(0usize, 0usize), (1, 1), (127, 127), (128, 128), (129, 129), (256, 256), (1000, 128), (128, 1000), (128, 0)] {
